@@ -286,6 +286,11 @@ func DoPostArticle(
 		return nil, err
 	}
 
+	// the board's login-days / bad-post limits (CheckPostRestriction in do_general)
+	if !CheckPostRestriction(user, uid, board, bid) {
+		return nil, ErrNotPermitted
+	}
+
 	isCooldown, err := checkCooldown(user, uid, board, bid)
 	if err != nil {
 		return nil, err
